@@ -329,6 +329,19 @@ func workloadTight(seed int64, iters int) [][]byte {
 		ue.AuthenticationSubs = tglib.GetAuthSubscription(fmt.Sprintf("%x", ev.Bytes(r, 16)), "", fmt.Sprintf("%x", ev.Bytes(r, 16)))
 	}
 	dlPlain := []byte{0x7e, 0x00, 0x54, 0xd1}
+	// first phase, entered by all workers at the same moment: nothing but decodings of a deeply nested message of this worker's own
+	// (with many workers, many decodings are in flight at once)
+	hr, _ := tglib.GetHandoverRequired(seed*100000, seed, []byte{0, 1, byte(seed)}, []byte{0, 0, 0, byte(seed), 0x10})
+	for k := 0; k < 150; k++ {
+		if pdu, err := ngap.Decoder(hr); err == nil && pdu != nil {
+			if k%50 == 0 {
+				b2, _ := ngap.Encoder(*pdu)
+				outs = append(outs, b2)
+			}
+		} else {
+			outs = append(outs, []byte(fmt.Sprint("decode error at ", k)))
+		}
+	}
 	for i := 0; i < iters; i++ {
 		if i%4 == 0 {
 			c := uint32(i/4 + 1)
@@ -400,6 +413,15 @@ func workloadTight(seed int64, iters int) [][]byte {
 			if pdu, err := ngap.Decoder(b); err == nil {
 				b2, _ := ngap.Encoder(*pdu)
 				outs = append(outs, b2)
+			}
+			// a burst of decodings (with many workers, many decodings are in flight at once), of a deeply nested message too
+			for k := 0; k < 12; k++ {
+				in := b
+				if pdu, err := ngap.Decoder(in); err == nil && pdu != nil {
+					outs = append(outs, []byte{byte(pdu.Present)})
+				} else {
+					outs = append(outs, []byte("decode error"))
+				}
 			}
 		}
 	}
